@@ -20,14 +20,24 @@ HingeCfgs == {[opt |-> "adam", hinge |-> TRUE, cw |-> o.cw, at |-> o.at, x0 |-> 
               o \in {[cw |-> <<R(1)>>, at |-> <<Q(1, 16)>>, x0 |-> <<Q(1, 4)>>],
                      [cw |-> <<R(1), Q(1, 2)>>, at |-> <<Q(1, 16), Q(0 - 3, 16)>>, x0 |-> <<Q(1, 4), R(2)>>]},
               b \in {<<Q(1, 2), Q(1, 3)>>, <<Q(3, 4), Q(4, 5)>>, <<Q(1, 2), Q(9, 16)>>, <<Q(9, 10), Q(1, 8)>>}, e \in {RZ, Q(1, 4)}}
+\* long horizons through the closed form (no crossing): 60 and 400 steps
+LongCfgs == {[opt |-> "adam", long |-> k, cw |-> <<R(1), Q(1, 2)>>, at |-> <<R(1000), R(0 - 1000)>>, x0 |-> <<R(0), R(3)>>, alpha |-> Q(1, 2), b1 |-> b[1], b2 |-> b[2], eps |-> e] :
+               k \in {60, 400}, b \in {<<Q(1, 2), Q(999, 1000)>>, <<Q(9, 10), Q(999, 1000)>>, <<Q(1, 2), Q(1, 2)>>}, e \in {RZ, Q(1, 1024)}}
+\* an inert coordinate: left of its one-sided kink from the start, it never sees a gradient and must not move, whatever its magnitude
+\* (the replay puts it at -2^55); the other coordinate follows the recurrence
+InertCfgs == {[opt |-> "adam", hinge |-> TRUE, inert |-> 1, cw |-> <<R(1), R(1)>>, at |-> <<R(0), Q(1, 16)>>, x0 |-> <<R(0 - 1), Q(1, 4)>>, alpha |-> Q(1, 2), b1 |-> b[1], b2 |-> b[2], eps |-> Q(1, 4)] :
+               b \in {<<Q(1, 2), Q(1, 3)>>, <<Q(3, 4), Q(4, 5)>>}}
 AdamCfgs == {[opt |-> "adam", cw |-> o.cw, at |-> o.at, x0 |-> o.x0, alpha |-> al, b1 |-> b[1], b2 |-> b[2], eps |-> e] :
               o \in {[cw |-> <<R(1)>>, at |-> <<Q(1, 17)>>, x0 |-> <<R(1)>>],                        \* crosses the kink: the gradient flips sign
                      [cw |-> <<R(2), Q(1, 16)>>, at |-> <<Q(0 - 3, 19), Q(29, 17)>>, x0 |-> <<R(0), R(2)>>]},
               al \in {Q(1, 2), Q(1, 8)}, b \in {<<Q(1, 2), Q(1, 2)>>, <<Q(3, 4), Q(7, 8)>>}, e \in {RZ, Q(1, 1024)}}
 \* step size 1/16 multiplies denominators by 16 per step: its horizon is capped at 5 (32-bit integers)
-Horizon == IF cfg.opt = "sgd" THEN (IF cfg.alpha = Q(1, 16) /\ KS > 5 THEN 5 ELSE KS) ELSE KA
-Init == /\ cfg \in SgdCfgs \cup AdamCfgs \cup HingeCfgs
-        /\ st = IF cfg.opt = "sgd" THEN SgdInit(cfg) ELSE AdamInit(cfg)
+IsLong(cf) == "long" \in DOMAIN cf
+Horizon == IF IsLong(cfg) THEN cfg.long ELSE IF cfg.opt = "sgd" THEN (IF cfg.alpha = Q(1, 16) /\ KS > 5 THEN 5 ELSE KS) ELSE KA
+Init == /\ cfg \in SgdCfgs \cup AdamCfgs \cup HingeCfgs \cup LongCfgs \cup InertCfgs
+        /\ st = IF cfg.opt = "sgd" THEN SgdInit(cfg)
+                ELSE IF IsLong(cfg) THEN [AdamInit(cfg) EXCEPT !.t = cfg.long, !.x = AdamClosedForm(cfg, cfg.long)]     \* jump to step k
+                ELSE AdamInit(cfg)
 Next == /\ st.t < Horizon /\ ~st.converged /\ (cfg.opt = "adam" => st.exact)
         /\ st' = IF cfg.opt = "sgd" THEN SgdStep(cfg, st) ELSE AdamStep(cfg, st)
         /\ UNCHANGED cfg
@@ -36,6 +46,10 @@ Spec == Init /\ [][Next]_vars
 \* the two-sided objective never loses exactness (|g| = c at every step); the one-sided one reaches a step with an exactly zero
 \* gradient component and non-zero moments that is still exact (the case the family exists for)
 Inv_AdamExact == (cfg.opt = "adam" /\ ~Hinge(cfg)) => st.exact
+\* the closed form is the recurrence as long as no coordinate can have crossed (checked on the unrolled configurations)
+Inv_ClosedForm == (cfg.opt = "adam" /\ ~Hinge(cfg) /\ ~IsLong(cfg) /\ NoCrossingPossible(cfg, st.t)) => st.x = AdamClosedForm(cfg, st.t)
+Inv_LongNoCrossing == IsLong(cfg) => NoCrossingPossible(cfg, cfg.long)
+Inv_Inert == ("inert" \in DOMAIN cfg /\ st.exact) => st.x[cfg.inert] = cfg.x0[cfg.inert]
 HingeWitness == cfg.opt = "adam" /\ Hinge(cfg) /\ st.exact /\ st.zero_grad /\ st.t >= 2
 Inv_AdamBounded == (cfg.opt = "adam" /\ st.t >= 1) =>
    \A i \in 1..Dim(cfg) : TRUE
@@ -55,7 +69,7 @@ Inv_ScaleEquivariant == (st.t <= 1 /\ (cfg.opt = "adam" => st.exact)) =>
    (cfg.opt = "adam" => pl.exact) => nx.x = [i \in 1..Dim(cfg) |-> RMul(pl.x[i], s)]
 CfgJ == IF cfg.opt = "sgd"
         THEN [opt |-> "sgd", a |-> cfg.a, b |-> cfg.b, c |-> cfg.c, x0 |-> RSeqJ(cfg.x0), alpha |-> RJ(cfg.alpha), mu |-> RJ(cfg.mu), nesterov |-> cfg.nesterov]
-        ELSE [opt |-> "adam", hinge |-> Hinge(cfg), cw |-> RSeqJ(cfg.cw), at |-> RSeqJ(cfg.at), x0 |-> RSeqJ(cfg.x0), alpha |-> RJ(cfg.alpha), b1 |-> RJ(cfg.b1), b2 |-> RJ(cfg.b2), eps |-> RJ(cfg.eps)]
+        ELSE [opt |-> "adam", hinge |-> Hinge(cfg), inert |-> (IF "inert" \in DOMAIN cfg THEN cfg.inert ELSE 0), cw |-> RSeqJ(cfg.cw), at |-> RSeqJ(cfg.at), x0 |-> RSeqJ(cfg.x0), alpha |-> RJ(cfg.alpha), b1 |-> RJ(cfg.b1), b2 |-> RJ(cfg.b2), eps |-> RJ(cfg.eps)]
 \* case for maxsteps = st.t (and, if converged here, for every larger budget: the loop has stopped)
 Emit == (cfg.opt = "adam" => st.exact) => PrintT(<<"CASE", ToJson([cfg |-> CfgJ, k |-> st.t, x |-> RSeqJ(st.x), converged |-> st.converged, horizon |-> Horizon,
                                                                   zero_grad |-> (cfg.opt = "adam" /\ st.zero_grad)])>>)
